@@ -47,12 +47,14 @@ def gen_cfg(rng, focus=None, thorough=False):
     special = []
     if rng.random() < focus.get('p_special', 0.3):
         special = rng.choice([[UNHASH], [UNHASH], [UNHASH, UNENC], [UNHASH, LAMBDA], [UNHASHF, UNHASH], [LAMBDA]])
-        if rng.random() < 0.3 and UNHASH in special:
+        if rng.random() < focus.get('p_special_raises', 0.3) and UNHASH in special:
             raising = raising + [UNHASH]
+        if rng.random() < focus.get('p_special_raises', 0.3) / 2 and LAMBDA in special:
+            raising = raising + [LAMBDA]
     # rounding tolerance (float arguments), typed twins (typed keymaps), string arguments (*args stub)
     tol = rng.choice([None, None, None, 0, 1, 2])
     deep = rng.random() < 0.4
-    stub = rng.choice(['var', 'req2', 'req2'] + ['named'] * 7)
+    stub = rng.choice(['var', 'req2', 'req2', 'fdef', 'fdef'] + ['named'] * 6)
     none_arg = (nargs - 1) if rng.random() < 0.25 else None
     if none_arg is not None and none_arg in raising:
         raising = [a for a in raising if a != none_arg]
